@@ -213,7 +213,7 @@ def isCartStyle (coordstyle : String) : Bool :=
 /-- `C07.writePoscarDoc` with the Cartesian decision named. -/
 def writePoscarDoc' (s : Sys) (header : List String) (symbols : Option (List String)) (coordstyle : String)
     (scale : ℚ) (f : Fmt) : Res Doc := do
-  if scale = 0 then throw "value"
+  if scale ≤ 0 then throw "value"
   if s.natoms = 0 then throw "value"
   if coordstyle.toList = [] then throw "value"
   let p := poscarNums s (isCartStyle coordstyle) scale
@@ -257,7 +257,7 @@ theorem loadPoscar_writePoscar {f : Fmt} (hf : Readable f) (s : Sys) (header : L
   unfold writePoscar at hw
   rw [writePoscarDoc_eq] at hw
   unfold writePoscarDoc' at hw
-  by_cases h0 : scale = 0
+  by_cases h0 : scale ≤ 0
   · simp [h0, bind, Except.bind, throw, throwThe, MonadExceptOf.throw, Except.map] at hw
   by_cases h1 : s.natoms = 0
   · simp [h0, h1, bind, Except.bind, throw, throwThe, MonadExceptOf.throw, Except.map] at hw
